@@ -231,7 +231,9 @@ func (h *vHist) pickCrash(base kit.State, muts []*kit.Op) (kit.State, string) {
 func (h *vHist) run(env *vEnv, name, desc string, crashable bool, fn func() (vOut, error)) *vhResult {
 	r := &vhResult{Name: name, Desc: desc}
 	t0 := time.Now()
-	defer func() { h.t.Logf("step %-16s %6.2fs muts=%d files=%d %s", name, time.Since(t0).Seconds(), len(r.Muts), len(env.vbe.Snapshot()), desc) }()
+	defer func() {
+		h.t.Logf("step %-16s %6.2fs muts=%d files=%d %s", name, time.Since(t0).Seconds(), len(r.Muts), len(env.vbe.Snapshot()), desc)
+	}()
 	r.Base, r.Muts, r.Err = env.vJournaled(func() error {
 		var err error
 		r.Out, err = fn()
